@@ -255,6 +255,9 @@ async fn run(mut s: Sim, mut rng: Rng, _len: usize) -> Sim {
                            let ix = s.rd_configure_rewards(&g.rew_acc, e, 1, rt.root); s.op(tx(vec![ix])).await; }
                 let ix = s.rd_finalize_rewards(&g.payer, e); s.op(tx(vec![ix])).await;
             }
+            // C12 / C04: debt figures posted on epoch 0 (nothing at all, finalized with the null root) after everything is final: refused
+            { let t9 = s.def_tree(0, vec![Leaf::Debt { node: g.nodes[0].clone(), amount: 100 }]);
+              let ix = s.rd_configure_debt(&g.debt_acc, eps[0], 1, 100, t9.root); s.op(tx(vec![ix])).await; }
             // zero-debt sweep while paused: refused; after unpausing the same sweep succeeds
             let p1 = s.rd_configure(&g.admin, RdSetting::Paused(true)); s.op(tx(vec![p1])).await;
             let ix = s.rd_sweep(eps[0], &K::SwapMock, &g.fills); s.op(tx(vec![ix.clone()])).await;
@@ -308,7 +311,7 @@ async fn run(mut s: Sim, mut rng: Rng, _len: usize) -> Sim {
         21 => { // C12 / C05: an epoch whose whole debt was written off finalizes with the null root; its sweep is a no-op even though the swapped
                 // pool (fed by another epoch) and a matching fill would allow a purchase of exactly its total debt
             let (e0, e1) = (open_epoch(&mut s, &mut g).await, open_epoch(&mut s, &mut g).await);
-            let (poor, rich) = (g.nodes[6].clone(), g.nodes[0].clone());
+            let (poor, rich) = (g.nodes[6].clone(), g.nodes[7].clone());   // `rich` holds exactly what it is given below
             let t0 = s.def_tree(0, vec![Leaf::Debt { node: poor.clone(), amount: 700 }]);
             let t1 = s.def_tree(0, vec![Leaf::Debt { node: rich.clone(), amount: 700 }]);
             for (e, t) in [(e0, &t0), (e1, &t1)] {
@@ -326,6 +329,7 @@ async fn run(mut s: Sim, mut rng: Rng, _len: usize) -> Sim {
             // C12 / C01: a leaf that was paid cannot be written off afterwards (paid XOR written off), here with write-offs enabled on e1
             let ix = s.rd_enable_write_off(e1, &g.payer); s.op(tx(vec![ix])).await;
             let ix = s.rd_write_off(&g.debt_acc, e1, &rich, e1, 700, &p1); s.op(tx(vec![ix])).await;
+            let ix = s.rd_finalize_rewards(&g.payer, e1); s.op(tx(vec![ix])).await;           // 700 collected and collectible, null root: refused
             // C12 / C04: debt figures re-posted on e0 after debt and rewards are final: refused
             let t9 = s.def_tree(0, vec![Leaf::Debt { node: rich.clone(), amount: 100 }]);
             let ix = s.rd_configure_debt(&g.debt_acc, e0, 1, 100, t9.root); s.op(tx(vec![ix])).await;
